@@ -86,7 +86,8 @@ class EIO(Engine):
             for route in READ_ROUTES:
                 for cls in CLASSES:
                     add(mode='read', size=size, route=route, cls=cls)
-        for size in ((1025,) if tier == 'quick' else (511, 1024, 1025, 8193)):
+        # (8193 bytes: larger than one mmap allocation unit, so windows start beyond it too)
+        for size in ((1025, 8193) if tier == 'quick' else (511, 1024, 1025, 4096, 4097, 8193, 12289)):
             for route in READ_ROUTES:
                 add(mode='read', size=size, route=route, cls=CLASSES[size % 4], sparse=True)
         for dt in ('uint8', 'uint5', 'int12', 'floatbe32', 'uintle16', 'bytes2', 'hex4', 'bool'):
@@ -156,6 +157,11 @@ class EIO(Engine):
                     o = g.int(0, nb)
                     wins.add((o, g.int(0, nb - o)))
                     wins.add((o, None))
+                for o in (32767, 32768, 32769, 32776, 40000, 65535, 65536):
+                    if o <= nb:
+                        wins.add((o, min(13, nb - o)))
+                        wins.add((o, None))
+                        wins.add((o, nb - o))
                 wins = sorted(wins, key=lambda w: (-1 if w[0] is None else w[0], -1 if w[1] is None else w[1]))
             else:
                 wins = [(None, None)]
